@@ -14,6 +14,8 @@ from . import unitspec
 
 
 def run(ctx):
+    from .configtime import late_binding_closures as _late
+    _late(ctx, 'C06.R1', classes=('Unit', 'Substance'))
     from .configtime import config_at_call_time
     config_at_call_time(ctx, 'C06.R4', classes=('Unit', 'Substance'))
     n = unitspec.convert_from_cells(ctx, 'C06.R1')
